@@ -61,6 +61,7 @@ structure CoOk (x : Coro) : Prop where
   outc : x.outcome.isSome = decide (x.st = St.done)
   deliv : x.deliveredTo = if x.st = St.done then x.bound.toList else []
   unb : x.st.started = false → x.bound = none
+  notif : x.notifiedAtFree = if x.st = St.done then some true else none
 
 structure Inv (s : State) : Prop where
   next_le : s.nExt ≤ s.nextFut
@@ -92,46 +93,46 @@ macro "co_tac" : tactic => `(tactic| (constructor <;> simp_all [St.began, St.fre
 
 theorem coOk_create (x : Coro) (p : List Act) (h : CoOk x) (hs : x.st = St.absent) :
     CoOk { x with st := St.unstarted, pc := p, allocs := x.allocs + 1 } := by
-  obtain ⟨a1,a2,a3,a4,a5,a6,a7,a8,a9,a10⟩ := h
+  obtain ⟨a1,a2,a3,a4,a5,a6,a7,a8,a9,a10,a11⟩ := h
   co_tac
 
 theorem coOk_dropU (x : Coro) (h : CoOk x) (hs : x.st = St.unstarted) :
     CoOk { x with st := St.dropped, frameFrees := x.frameFrees + 1, argDtors := x.argDtors + 1 } := by
-  obtain ⟨a1,a2,a3,a4,a5,a6,a7,a8,a9,a10⟩ := h
+  obtain ⟨a1,a2,a3,a4,a5,a6,a7,a8,a9,a10,a11⟩ := h
   co_tac
 
 theorem coOk_start (x : Coro) (b : Option Nat) (h : CoOk x) (hs : x.st = St.unstarted) :
     CoOk { x with st := St.scheduled, bound := b, startsOk := x.startsOk + 1 } := by
-  obtain ⟨a1,a2,a3,a4,a5,a6,a7,a8,a9,a10⟩ := h
+  obtain ⟨a1,a2,a3,a4,a5,a6,a7,a8,a9,a10,a11⟩ := h
   co_tac
 
 theorem coOk_begin (x : Coro) (h : CoOk x) (hs : x.st = St.scheduled) :
     CoOk { x with st := St.running, bodyStarts := x.bodyStarts + 1 } := by
-  obtain ⟨a1,a2,a3,a4,a5,a6,a7,a8,a9,a10⟩ := h
+  obtain ⟨a1,a2,a3,a4,a5,a6,a7,a8,a9,a10,a11⟩ := h
   co_tac
 
 /-- moving between non-suspended body states, touching only `st`, `pc`, `acc`, `saw` -/
 theorem coOk_mid (x : Coro) (st : St) (p : List Act) (a : Nat) (w : List (Nat × Outcome)) (h : CoOk x)
     (hs : x.st.mid = true) (hs' : st.mid = true) :
     CoOk { x with st := st, pc := p, acc := a, saw := w } := by
-  obtain ⟨a1,a2,a3,a4,a5,a6,a7,a8,a9,a10⟩ := h
+  obtain ⟨a1,a2,a3,a4,a5,a6,a7,a8,a9,a10,a11⟩ := h
   cases hx : x.st <;> simp [hx, St.mid] at hs <;> cases st <;> simp [St.mid] at hs' <;> co_tac
 
 theorem coOk_subscribe (x : Coro) (f : Nat) (ct : Bool) (h : CoOk x) (hs : x.st.mid = true) :
     CoOk { x with st := St.awaiting f ct, suspends := x.suspends + 1 } := by
-  obtain ⟨a1,a2,a3,a4,a5,a6,a7,a8,a9,a10⟩ := h
+  obtain ⟨a1,a2,a3,a4,a5,a6,a7,a8,a9,a10,a11⟩ := h
   cases hx : x.st <;> simp [hx, St.mid] at hs <;> co_tac
 
 theorem coOk_wake (x : Coro) (f : Nat) (ct : Bool) (h : CoOk x) (hs : x.st = St.awaiting f ct) :
     CoOk { x with st := St.resumable f ct, wakes := x.wakes + 1 } := by
-  obtain ⟨a1,a2,a3,a4,a5,a6,a7,a8,a9,a10⟩ := h
+  obtain ⟨a1,a2,a3,a4,a5,a6,a7,a8,a9,a10,a11⟩ := h
   constructor <;> simp_all [St.began, St.freed, St.started, St.susp]
 
 theorem coOk_retire (x : Coro) (o : Outcome) (h : CoOk x) (hs : x.st.mid = true) :
     CoOk { x with st := St.done, outcome := some o, localDtors := x.localDtors + 1,
-                  deliveredTo := x.bound.toList ++ x.deliveredTo,
+                  deliveredTo := x.bound.toList ++ x.deliveredTo, notifiedAtFree := some true,
                   frameFrees := x.frameFrees + 1, argDtors := x.argDtors + 1 } := by
-  obtain ⟨a1,a2,a3,a4,a5,a6,a7,a8,a9,a10⟩ := h
+  obtain ⟨a1,a2,a3,a4,a5,a6,a7,a8,a9,a10,a11⟩ := h
   cases hx : x.st <;> simp [hx, St.mid] at hs <;> co_tac
 
 theorem inv_init (prog : Nat → List Act) (n : Nat) : Inv (init prog n) := by
@@ -195,7 +196,7 @@ theorem inv_setCo (s : State) (c : Nat) (x : Coro) (h : Inv s)
 
 
 /-- a fresh future (claimed promise, not ready, nobody refers to it yet) -/
-theorem inv_newFut (s : State) (o : Option Nat) (h : Inv s) : Inv (newFut s o []) := by
+theorem inv_newFut (s : State) (o : Option Nat) (h : Inv s) (op : Bool := false) : Inv (newFut s o [] op) := by
   obtain ⟨h1,h2,h3,h4,h5,h6,h7,h8,h9,h10,h11,h12,h13⟩ := h
   have nb : ∀ y, (s.co y).bound ≠ some s.nextFut := by
     intro y hy; have := (h3 y _ hy).1; omega
@@ -246,11 +247,13 @@ theorem inv_newFut (s : State) (o : Option Nat) (h : Inv s) : Inv (newFut s o []
       intro e; subst e; simp [nr y] at hy
     simp only [upd_ne _ _ hne]; exact h13 y f hf hy
 
-@[simp] theorem newFut_co (s : State) (o : Option Nat) (w : List Nat) : (newFut s o w).co = s.co := rfl
-@[simp] theorem newFut_nextFut (s : State) (o : Option Nat) (w : List Nat) : (newFut s o w).nextFut = s.nextFut + 1 := rfl
-@[simp] theorem newFut_nExt (s : State) (o : Option Nat) (w : List Nat) : (newFut s o w).nExt = s.nExt := rfl
-theorem newFut_fut_new (s : State) (o : Option Nat) (w : List Nat) :
-    (newFut s o w).fut s.nextFut = { claimed := true, owner := o, waiters := w } := by simp [newFut, setFut]
+@[simp] theorem newFut_co (s : State) (o : Option Nat) (w : List Nat) (op : Bool) : (newFut s o w op).co = s.co := rfl
+@[simp] theorem newFut_nextFut (s : State) (o : Option Nat) (w : List Nat) (op : Bool) :
+    (newFut s o w op).nextFut = s.nextFut + 1 := rfl
+@[simp] theorem newFut_nExt (s : State) (o : Option Nat) (w : List Nat) (op : Bool) : (newFut s o w op).nExt = s.nExt := rfl
+theorem newFut_fut_new (s : State) (o : Option Nat) (w : List Nat) (op : Bool) :
+    (newFut s o w op).fut s.nextFut = { claimed := true, owner := o, waiters := w, cb := op, isOp := op } := by
+  simp [newFut, setFut]
 
 
 theorem inv_startCoro_none (s : State) (c : Nat) (h : Inv s) (hc : (s.co c).st = St.unstarted) :
@@ -528,28 +531,33 @@ theorem St.mid_not_done {st : St} (h : st.mid = true) : st ≠ St.done := by
 
 /-- the future `f` after coroutine `c` delivered `o` into it and resolved it -/
 def delivered (x : Fut) (c : Nat) (o : Outcome) : Fut :=
-  { x with out := some o, setBy := some c :: x.setBy, ready := true, waiters := [] }
+  { x with out := some o, setBy := some c :: x.setBy, ready := true, waiters := [], cb := false,
+           cbCalls := x.cbCalls + (if x.cb then 1 else 0) }
 
 /-- the record of a coroutine after `final_awaiter` -/
 def retired (x : Coro) (o : Outcome) (to : List Nat) : Coro :=
   { x with st := St.done, outcome := some o, localDtors := x.localDtors + 1, deliveredTo := to ++ x.deliveredTo,
-           frameFrees := x.frameFrees + 1, argDtors := x.argDtors + 1 }
+           notifiedAtFree := some true, frameFrees := x.frameFrees + 1, argDtors := x.argDtors + 1 }
+
+theorem deliver_ready (s : State) (c f : Nat) (o : Outcome) : ((deliver s c f o).fut f).ready = true := by
+  simp [deliver, resolve, setFut]
 
 theorem finish_bound_eq (s : State) (c f : Nat) (o : Outcome) (h : Inv s) (hm : (s.co c).st.mid = true) :
-    retire (deliver s c f o) c o [f]
+    retire (deliver s c f o) c o [f] ((deliver s c f o).fut f).ready
       = { s with co := upd (fun x => wk (s.co x) f) c (retired (s.co c) o [f]),
                  fut := upd s.fut f (delivered (s.fut f) c o) } := by
   have e1 : (deliver s c f o).co = fun x => wk (s.co x) f := by
     funext x; simp only [deliver, resolve, setFut, upd_same, wk]
     rw [h.waiters_count x f]
   have e2 : wk (s.co c) f = s.co c := wk_of_not _ f (St.mid_not_isAw hm f)
+  rw [deliver_ready]
   simp only [retire, setCo, e1, e2, retired]
   simp only [deliver, resolve, setFut, upd_same, upd_upd, delivered]
 
 
 theorem inv_finish_bound (s : State) (c f : Nat) (o : Outcome) (h : Inv s)
     (hb : (s.co c).bound = some f) (hm : (s.co c).st.mid = true) :
-    Inv (retire (deliver s c f o) c o [f]) := by
+    Inv (retire (deliver s c f o) c o [f] ((deliver s c f o).fut f).ready) := by
   rw [finish_bound_eq s c f o h hm]
   have hnd := St.mid_not_done hm
   have hlive := h.bound_live c f hb hnd
@@ -604,7 +612,7 @@ theorem inv_finish_bound (s : State) (c f : Nat) (o : Outcome) (h : Inv s)
 /-- `final_awaiter` of a detached coroutine -/
 theorem inv_finish_none (s : State) (c : Nat) (o : Outcome) (h : Inv s)
     (hb : (s.co c).bound = none) (hm : (s.co c).st.mid = true) :
-    Inv (retire s c o []) := by
+    Inv (retire s c o [] true) := by
   obtain ⟨h1,h2,h3,h4,h5,h6,h7,h8,h9,h10,h11,h12,h13⟩ := h
   have kb : ∀ y, (upd s.co c (retired (s.co c) o []) y).bound = (s.co y).bound := by
     intro y; by_cases hy : y = c
@@ -732,7 +740,9 @@ theorem inv_consume (s : State) (c f : Nat) (ct : Bool) (h : Inv s) (hm : (s.co 
 
 theorem resolve_setFut_eq (s : State) (f : Nat) (X : Fut) (h : Inv s) (hw : X.waiters = (s.fut f).waiters) :
     resolve (setFut s f X) f
-      = { s with co := fun x => wk (s.co x) f, fut := upd s.fut f { X with ready := true, waiters := [] } } := by
+      = { s with co := fun x => wk (s.co x) f,
+                 fut := upd s.fut f { X with ready := true, waiters := [], cb := false,
+                                             cbCalls := X.cbCalls + (if X.cb then 1 else 0) } } := by
   simp only [resolve, setFut, upd_same, upd_upd, hw, wk, h.waiters_count]
 
 theorem inv_setF (s : State) (k : Nat) (o : Outcome) (h : Inv s) : Inv (setF s k o).1 := by
@@ -829,9 +839,9 @@ theorem inv_claim (s : State) (k : Nat) (h : Inv s) :
   · intro y g hy; rw [kr]; exact h12 y g hy
   · intro y g hg hy; rw [kown]; exact h13 y g hg hy
 
-theorem inv_start (s : State) (c : Nat) (h : Inv s) (hc : (s.co c).st = St.unstarted) :
-    Inv (startCoro (newFut s none []) c (some s.nextFut)) := by
-  have h' := inv_newFut s none h
+theorem inv_start (s : State) (c : Nat) (h : Inv s) (hc : (s.co c).st = St.unstarted) (op : Bool := false) :
+    Inv (startCoro (newFut s none [] op) c (some s.nextFut)) := by
+  have h' := inv_newFut s none h op
   have hub : ∀ y, (s.co y).bound ≠ some s.nextFut := by
     intro y hy; have := (h.bound_lt y _ hy).1; omega
   apply inv_bind _ c s.nextFut h' (by simpa using hc) (by simp) <;>
@@ -846,7 +856,7 @@ theorem inv_startP (s : State) (c k : Nat) (h : Inv s) : Inv (step s (Op.startP 
       have hb := (h.co_ok c).unb (by simp [hg.1, St.started])
       apply inv_setCo s c _ h
       · have := h.co_ok c
-        obtain ⟨a1,a2,a3,a4,a5,a6,a7,a8,a9,a10⟩ := this
+        obtain ⟨a1,a2,a3,a4,a5,a6,a7,a8,a9,a10,a11⟩ := this
         constructor <;> simp_all
       · simp [hb]
       · simp [hg.1]
@@ -877,7 +887,7 @@ theorem startCoro_co_ne (s : State) {c j : Nat} (b : Option Nat) (h : c ≠ j) :
 
 theorem newFut_create_fut (s : State) (j : Nat) (o : Option Nat) (w : List Nat) :
     (newFut (create s j) o w).fut s.nextFut = { claimed := true, owner := o, waiters := w } :=
-  newFut_fut_new (create s j) o w
+  newFut_fut_new (create s j) o w false
 
 theorem inv_spawnBound (s : State) (c j : Nat) (h : Inv s) (hj : (s.co j).st = St.absent) :
     Inv (spawnBound s c j) := by
@@ -897,7 +907,7 @@ theorem spawnBound_fut (s : State) (c j : Nat) :
   simp [spawnBound, newFut_create_fut]
 
 theorem coOk_pc (x : Coro) (p : List Act) (h : CoOk x) : CoOk { x with pc := p } := by
-  obtain ⟨a1,a2,a3,a4,a5,a6,a7,a8,a9,a10⟩ := h
+  obtain ⟨a1,a2,a3,a4,a5,a6,a7,a8,a9,a10,a11⟩ := h
   constructor <;> simp_all
 
 theorem inv_setPc (s : State) (c : Nat) (p : List Act) (h : Inv s) (hr : (s.co c).st = St.running) :
@@ -993,9 +1003,9 @@ theorem inv_step (s : State) (op : Op) (h : Inv s) : Inv (step s op).1 := by
   | detach c => simp only [step]; split
                 · rename_i hc; exact inv_startCoro_none s c h hc
                 · exact h
-  | start c => simp only [step]; split
-               · rename_i hc; exact inv_start s c h hc
-               · exact h
+  | start c o => simp only [step]; split
+                 · rename_i hc; exact inv_start s c h hc o
+                 · exact h
   | startP c k => exact inv_startP s c k h
   | setF k o => exact inv_setF s k o h
   | dropP k => exact inv_dropP s k h
